@@ -170,7 +170,8 @@ def sweepMove3D := sweepMove3DWith site
 /-- the code before the fix (D9): `correction[location] = 'Z'` -/
 def oldSweepMove3D := sweepMove3DWith assignZ
 
-/-- `get_initial_state`: `signs = syndrome.copy(); signs[z_indices] = 0` -/
+/-- `SweepDecoder3D.get_initial_state`: `signs = syndrome.copy(); signs[z_indices] = 0`
+    (also what `RotatedSweepDecoder3D.get_initial_state` did before the seam repair) -/
 def initialState (lat : Lattice) (syndrome : Signs) : Signs :=
   List.zipWith (fun s b => if lat.zIndex s then false else b) lat.stabs syndrome
 
@@ -209,8 +210,17 @@ abbrev SweepDir := Int × Int × Int
 def sweepDirections : List SweepDir :=
   [(1, 0, 1), (1, 0, -1), (0, 1, 1), (0, 1, -1), (-1, 0, 1), (-1, 0, -1), (0, -1, 1), (0, -1, -1)]
 
-/-- `get_sweep_faces(vertex, sweep_direction)` -/
-def sweepFacesRot (v : Loc) (s : SweepDir) : Loc × Loc × Loc :=
+/-- `RotatedSweepDecoder3D._wrap(location)`: identity unless
+    `code.id == 'RotatedToric3DCode'`, else
+    `((x - 1) % (2*Lx) + 1, (y - 1) % (2*Ly) + 1, z)` (Python `%`: `Int.emod`) -/
+def wrapRot (lat : Lattice) (l : Loc) : Loc :=
+  if lat.rotSeam then
+    ((l.1 - 1) % (2 * (lat.size.1 : Int)) + 1, (l.2.1 - 1) % (2 * (lat.size.2.1 : Int)) + 1, l.2.2)
+  else l
+
+/-- the three faces of `get_sweep_faces(vertex, sweep_direction)` before `_wrap`
+    (what the method returned before the seam repair) -/
+def oldSweepFacesRot (v : Loc) (s : SweepDir) : Loc × Loc × Loc :=
   let (x, y, z) := v
   let (sx, sy, sz) := s
   let xF : Loc := if sx + sy > 0 then (x + 1, y + 1, z + 1 * sz) else (x - 1, y - 1, z + 1 * sz)
@@ -218,8 +228,14 @@ def sweepFacesRot (v : Loc) (s : SweepDir) : Loc × Loc × Loc :=
   let zF : Loc := (x + 2 * sx, y + 2 * sy, z)
   (xF, yF, zF)
 
-/-- `get_sweep_edges(vertex, sweep_direction)` -/
-def sweepEdgesRot (v : Loc) (s : SweepDir) : Loc × Loc × Loc :=
+/-- `get_sweep_faces(vertex, sweep_direction)`:
+    `tuple(self._wrap(face) for face in (x_face, y_face, z_face))` -/
+def sweepFacesRot (lat : Lattice) (v : Loc) (s : SweepDir) : Loc × Loc × Loc :=
+  let F := oldSweepFacesRot v s
+  (wrapRot lat F.1, wrapRot lat F.2.1, wrapRot lat F.2.2)
+
+/-- the three edges of `get_sweep_edges(vertex, sweep_direction)` before `_wrap` -/
+def oldSweepEdgesRot (v : Loc) (s : SweepDir) : Loc × Loc × Loc :=
   let (x, y, z) := v
   let (sx, sy, sz) := s
   let xE : Loc := if sx - sy > 0 then (x + 1, y - 1, z) else (x - 1, y + 1, z)
@@ -227,7 +243,13 @@ def sweepEdgesRot (v : Loc) (s : SweepDir) : Loc × Loc × Loc :=
   let zE : Loc := (x, y, z + 1 * sz)
   (xE, yE, zE)
 
-/-- adjacent faces listed by `RotatedSweepDecoder3D.flip_edge` before filtering;
+/-- `get_sweep_edges(vertex, sweep_direction)`:
+    `tuple(self._wrap(edge) for edge in (x_edge, y_edge, z_edge))` -/
+def sweepEdgesRot (lat : Lattice) (v : Loc) (s : SweepDir) : Loc × Loc × Loc :=
+  let E := oldSweepEdgesRot v s
+  (wrapRot lat E.1, wrapRot lat E.2.1, wrapRot lat E.2.2)
+
+/-- adjacent faces listed by `RotatedSweepDecoder3D.flip_edge` before wrapping and filtering;
     `none`: no branch assigns `edge_direction` (`UnboundLocalError`) -/
 def rawFacesRot (edge : Loc) : Option (List Loc) :=
   let (x, y, z) := edge
@@ -241,9 +263,14 @@ def rawFacesRot (edge : Loc) : Option (List Loc) :=
     if y % 4 == 1 then some ydir else if y % 4 == 3 then some xdir else none
   else none
 
-/-- faces toggled by `RotatedSweepDecoder3D.flip_edge`: kept when
+/-- faces toggled by `RotatedSweepDecoder3D.flip_edge`:
+    `faces = [self._wrap(face) for face in faces]`, then kept when
     `code.is_stabilizer(face, 'face')` -/
 def flipFacesRot (lat : Lattice) (edge : Loc) : Option (List Loc) :=
+  (rawFacesRot edge).map fun fs => (fs.map (wrapRot lat)).filter lat.isStabFace
+
+/-- the flip table before the seam repair (D10): no `_wrap` -/
+def oldFlipFacesRot (lat : Lattice) (edge : Loc) : Option (List Loc) :=
   (rawFacesRot edge).map fun fs => fs.filter lat.isStabFace
 
 def flipEdgeRot (lat : Lattice) : Loc → Signs → Option Signs := flipWith lat (flipFacesRot lat)
@@ -256,8 +283,8 @@ def flipLocationsRot (lat : Lattice) (signs : Signs) (sd : SweepDir) :
     List Loc → List Dir → List Loc × List Dir
   | [], ds => ([], ds)
   | v :: vs, ds =>
-    let (xF, yF, zF) := sweepFacesRot v sd
-    let (xE, yE, zE) := sweepEdgesRot v sd
+    let (xF, yF, zF) := sweepFacesRot lat v sd
+    let (xE, yE, zE) := sweepEdgesRot lat v sd
     let valid := lat.isStabFace xF && lat.isStabFace yF && lat.isStabFace zF &&
                  lat.isQubit xE && lat.isQubit yE && lat.isQubit zE
     let r := if valid then
@@ -272,6 +299,11 @@ def sweepMoveRot (lat : Lattice) (sd : SweepDir) (st : State) (ds : List Dir) :
     Option (State × List Dir) :=
   let r := flipLocationsRot lat st.signs sd (sweepVerticesRot lat) ds
   (applyFlips lat (flipFacesRot lat) site r.1 st).map fun st' => (st', r.2)
+
+/-- `RotatedSweepDecoder3D.get_initial_state`: `signs = syndrome.copy()`, then the rows whose
+    `stabilizer_type` is `'vertex'` are blanked (`signs[is_vertex] = 0`) -/
+def initialStateRot (lat : Lattice) (syndrome : Signs) : Signs :=
+  List.zipWith (fun s b => if lat.isFace s then b else false) lat.stabs syndrome
 
 /-- `for sweep_direction in sweep_directions: <inner while loop>` -/
 def dirsLoopRot (lat : Lattice) (maxSweeps : Nat) :
@@ -299,7 +331,7 @@ def roundsLoopRot (lat : Lattice) (maxSweeps : Nat) :
     `max_sweeps = 4 * (2*max(size) + 2)` -/
 def runRot (lat : Lattice) (maxRounds : Nat) (syndrome : Signs) (ds : List Dir) :
     Option (List State × State × List Dir) :=
-  roundsLoopRot lat (4 * (2 * lat.maxSize + 2)) maxRounds ⟨initialState lat syndrome, []⟩ ds
+  roundsLoopRot lat (4 * (2 * lat.maxSize + 2)) maxRounds ⟨initialStateRot lat syndrome, []⟩ ds
 
 def decodeRot (lat : Lattice) (maxRounds : Nat) (syndrome : Signs) (ds : List Dir) :
     Option (List Nat) :=
@@ -368,6 +400,78 @@ def flipTableOK (lat : Lattice) (faces : Loc → Option (List Loc)) : Bool :=
 /-- edges on which the table is inconsistent (driver / diagnostics) -/
 def flipTableBad (lat : Lattice) (faces : Loc → Option (List Loc)) : List Loc :=
   lat.qubits.filter fun q => !flipOK lat faces q
+
+/-! ### the same notions with an arbitrary choice of the rows that count as face rows
+
+`SweepDecoder3D.get_initial_state` blanks `z_indices`; `RotatedSweepDecoder3D.get_initial_state`
+blanks the rows whose `stabilizer_type` is `'vertex'`.  The two differ on the defect lines of an
+odd-sized RotatedToric3DCode, where a generator of type `'face'` carries Z letters too; such a
+row also sees the X part of the error, so the general notion keeps the X part `ex`. -/
+
+/-- the rows selected by `keep` of `measure_syndrome` of the Pauli operator with X part `ex`
+    and Z part `ez`; the other rows are blanked -/
+def faceSynK (keep : Loc → Bool) (lat : Lattice) (ex ez : Loc → Bool) : Signs :=
+  lat.stabs.map fun s => keep s && rowSyn (lat.stabOp s) ex ez
+
+/-- the invariant, for the face rows selected by `keep` and an error with X part `ex` -/
+def TracksK (keep : Loc → Bool) (lat : Lattice) (ex ez : Loc → Bool) (st : State) : Prop :=
+  st.signs = faceSynK keep lat ex (residualZ ez st.corr)
+
+instance (keep : Loc → Bool) (lat : Lattice) (ex ez : Loc → Bool) (st : State) :
+    Decidable (TracksK keep lat ex ez st) := by
+  unfold TracksK; infer_instance
+
+def faceHasK (keep : Loc → Bool) (lat : Lattice) (s loc : Loc) : Bool :=
+  keep s && xorSum (lat.stabOp s) (fun e => hasX e.2 && e.1 == loc)
+
+def flipOKK (keep : Loc → Bool) (lat : Lattice) (faces : Loc → Option (List Loc)) (loc : Loc) : Bool :=
+  match faces loc with
+  | none => false
+  | some fl => lat.stabs.all fun s => oddCount fl s == faceHasK keep lat s loc
+
+/-! ### the rotated decoder: face rows = rows of type `'face'` -/
+
+/-- X part of the error composed with the correction -/
+def residualX (ex : Loc → Bool) (corr : Op) : Loc → Bool := fun q => ex q != xPartOf corr q
+
+/-- the rows of type `'face'` of `measure_syndrome(error)` (X part `ex`, Z part `ez`); the rows
+    of type `'vertex'` are blanked -/
+def faceSynRot (lat : Lattice) (ex ez : Loc → Bool) : Signs := faceSynK lat.isFace lat ex ez
+
+/-- THE INVARIANT of C10 for `RotatedSweepDecoder3D`: the tracked excitations are the rows of
+    type `'face'` of the syndrome of error (X part `ex`, Z part `ez`) composed with the
+    correction so far -/
+def TracksRot (lat : Lattice) (ex ez : Loc → Bool) (st : State) : Prop :=
+  st.signs = faceSynRot lat (residualX ex st.corr) (residualZ ez st.corr)
+
+instance (lat : Lattice) (ex ez : Loc → Bool) (st : State) : Decidable (TracksRot lat ex ez st) := by
+  unfold TracksRot; infer_instance
+
+/-- does the stabilizer `s` have type `'face'` and anticommute with Z on `loc`? -/
+def faceHasRot (lat : Lattice) (s loc : Loc) : Bool := faceHasK lat.isFace lat s loc
+
+/-- flipping `loc` toggles exactly the generators of type `'face'` that anticommute with Z on
+    `loc` -/
+def flipOKRot (lat : Lattice) (faces : Loc → Option (List Loc)) (loc : Loc) : Bool :=
+  flipOKK lat.isFace lat faces loc
+
+/-- consistency of a flip table with the generators of type `'face'`, on every edge -/
+def flipTableOKRot (lat : Lattice) (faces : Loc → Option (List Loc)) : Bool :=
+  lat.qubits.all (flipOKRot lat faces)
+
+/-- edges on which the table is inconsistent (driver / diagnostics) -/
+def flipTableBadRot (lat : Lattice) (faces : Loc → Option (List Loc)) : List Loc :=
+  lat.qubits.filter fun q => !flipOKRot lat faces q
+
+/-- at every vertex, for every sweep direction of `decode`: `all(faces_valid)` implies
+    `all(edges_valid)` (decidable; the analogue of `sweepEdgesOK3D`, not needed as a hypothesis
+    because the rotated decoder checks the edges at run time) -/
+def sweepEdgesOKRot (lat : Lattice) : Bool :=
+  (sweepVerticesRot lat).all fun v => sweepDirections.all fun sd =>
+    let F := sweepFacesRot lat v sd
+    let E := sweepEdgesRot lat v sd
+    !(lat.isStabFace F.1 && lat.isStabFace F.2.1 && lat.isStabFace F.2.2) ||
+      (lat.isQubit E.1 && lat.isQubit E.2.1 && lat.isQubit E.2.2)
 
 /-- every edge `SweepDecoder3D.sweep_move` can propose is an edge of the lattice, whenever
     the two faces whose excitation triggers the proposal exist -/
